@@ -310,38 +310,40 @@ Fixpoint idle_dequeue (c : cfg) (q : list request) (s : layer) (evs : list event
         end
   end.
 
-(** Flow Control handling part of _process_tx (L1003-1042). [None] = the
-    Overflow early return. *)
-Definition handle_fc (c : cfg) (s : layer) (fc : fcpdu) : option (layer * list event) * (layer * list event) :=
+(** Flow Control handling part of _process_tx (L1003-1042), for a transmitter that is
+    waiting for a flow control or transmitting consecutive frames. *)
+Definition handle_fc_active (c : cfg) (s : layer) (fc : fcpdu) : layer * list event :=
   let p := c_p c in
+  if fc_status fc =? FS_WAIT then
+    if p_wftmax p =? 0 then (s, [EErr UnsupportedWaitFrame])
+    else if timer_timed_out (now s) (timer_rx_fc s) then (s, [])
+    else if p_wftmax p <=? wft_counter s then
+      let '(s1, evs) := stop_sending false s in (s1, EErr MaximumWaitFrameReached :: evs)
+    else
+      (start_rx_fc_timer c (s <| wft_counter := wft_counter s + 1 |> <| tx_state := TxWaitFC |>), [])
+  else if (fc_status fc =? FS_CTS) && negb (timer_timed_out (now s) (timer_rx_fc s)) then
+    let st := match p_override_stmin_ns p with Some o => o | None => stmin_ns (fc_stmin fc) end in
+    let s1 := s <| wft_counter := 0 |> <| timer_rx_fc ::= timer_stop |>
+                <| timer_tx_stmin ::= (fun t => t <| t_timeout := st |>) |>
+                <| remote_bs := Some (fc_bs fc) |> in
+    let s2 := match tx_state s1 with
+              | TxWaitFC => s1 <| tx_block_counter := 0 |> <| timer_tx_stmin ::= timer_start (now s1) |>
+              | _ => s1
+              end in
+    (s2 <| tx_state := TxTransmitCF |>, [])
+  else (s, []).
+
+(** [true] = the Overflow early return of _process_tx. *)
+Definition handle_fc (c : cfg) (s : layer) (fc : fcpdu) : bool * (layer * list event) :=
   if fc_status fc =? FS_OVFLW then
     let '(s1, evs) := stop_sending false s in
-    (None, (s1, evs ++ [EErr OverflowErr]))
+    (true, (s1, evs ++ [EErr OverflowErr]))
   else
-  let r :=
-    match tx_state s with
-    | TxIdle | TxSFStandby | TxFFStandby => (s, [EErr UnexpectedFlowControl])
-    | _ =>
-      if fc_status fc =? FS_WAIT then
-        if p_wftmax p =? 0 then (s, [EErr UnsupportedWaitFrame])
-        else if timer_timed_out (now s) (timer_rx_fc s) then (s, [])
-        else if p_wftmax p <=? wft_counter s then
-          let '(s1, evs) := stop_sending false s in (s1, EErr MaximumWaitFrameReached :: evs)
-        else
-          (start_rx_fc_timer c (s <| wft_counter := wft_counter s + 1 |> <| tx_state := TxWaitFC |>), [])
-      else if (fc_status fc =? FS_CTS) && negb (timer_timed_out (now s) (timer_rx_fc s)) then
-        let st := match p_override_stmin_ns p with Some o => o | None => stmin_ns (fc_stmin fc) end in
-        let s1 := s <| wft_counter := 0 |> <| timer_rx_fc ::= timer_stop |>
-                    <| timer_tx_stmin ::= (fun t => t <| t_timeout := st |>) |>
-                    <| remote_bs := Some (fc_bs fc) |> in
-        let s2 := match tx_state s1 with
-                  | TxWaitFC => s1 <| tx_block_counter := 0 |> <| timer_tx_stmin ::= timer_start (now s1) |>
-                  | _ => s1
-                  end in
-        (s2 <| tx_state := TxTransmitCF |>, [])
-      else (s, [])
-    end in
-  (Some r, r).
+    (false,
+     match tx_state s with
+     | TxIdle | TxSFStandby | TxFFStandby => (s, [EErr UnexpectedFlowControl])
+     | _ => handle_fc_active c s fc
+     end).
 
 (** Flow control reception, timeouts and completion check of _process_tx (L999-1054).
     [inl r]: _process_tx returns early with report [r]. *)
@@ -350,12 +352,12 @@ Definition tx_after_fc (c : cfg) (s : layer) : tx_report + (layer * list event) 
   let s := s <| last_fc := None |> in
   let after_fc :=
     match fc with
-    | None => (Some (s, []), (s, []))
+    | None => (false, (s, []))
     | Some f => handle_fc c s f
     end in
   match after_fc with
-  | (None, (s1, evs)) => inl (mk_tr s1 evs None false)
-  | (Some _, (s1, evs1)) =>
+  | (true, (s1, evs)) => inl (mk_tr s1 evs None false)
+  | (false, (s1, evs1)) =>
     (* timeouts *)
     let '(s2, evs2) :=
       if timer_timed_out (now s1) (timer_rx_fc s1) then
